@@ -206,6 +206,10 @@ def run_c08(tier, seed):
     require_ok(sh, "MC_ConvShapes (C08 compound)")
     v.add_tlc(sh, "MC_ConvShapes (compound pairs for cold/warm single-valuedness)")
     system, cases = sh.exports["SYS"][0], sh.exports["E"]
+    # the same pair is also asked with numerically equal magnitudes of the other numeric types (a subset, seeded)
+    rk = random.Random(seed)
+    extra = [dict(cse, mk=k) for cse in rk.sample(cases, min(len(cases), 600 if tier == "quick" else 4000)) for k in ("float", "Decimal")]
+    cases = cases + extra
     drv = ShapesDriver(system=system, decl=system["decl"], props=("C08",), obs=True)
     cold = replay_histories([[c] for c in cases], drv, split_depth=1, label="c08_cold")
     oc = {o["key"]: o["detail"] for o in cold["obs"]}
@@ -218,8 +222,19 @@ def run_c08(tier, seed):
         v.impl += warm["n"]
         for o in warm["obs"]:
             d = oc.get(o["key"])
+
+            def tag(x):
+                if ":" in x:
+                    return x.split(":", 1)[0]
+                return "Decimal" if x.startswith("Decimal(") else ""
+
+            def num(x):
+                import re as _re
+                mnum = _re.search(r"[-+]?(?:\d+\.?\d*|\.\d+)(?:[eE][-+]?\d+)?", x.split(":", 1)[1] if ":" in x else x)
+                return float(mnum.group(0)) if mnum else float("nan")
             same = d is not None and d[0] == o["detail"][0] and (d[1] == o["detail"][1] or (
-                d[1] != "None" and o["detail"][1] != "None" and close(float(d[1]), float(o["detail"][1]), 1e-12)))
+                d[1] != "None" and o["detail"][1] != "None" and tag(d[1]) == tag(o["detail"][1])
+                and close(num(d[1]), num(o["detail"][1]), 1e-12)))
             if not same:
                 ndiff += 1
                 v.violations.append({"prop": "C08", "key": "compound:history-dependent:%s" % o["key"],
@@ -229,6 +244,8 @@ def run_c08(tier, seed):
     v.evaluations += cold["n"]
     v.extra["compound_cold_vs_warm"] = {"pairs": len(cases), "differences": ndiff}
     compound_histories(v, tier, seed)
+    import defgraph
+    defgraph.shipped_history_independence(v, tier, seed)
     nv = run_tlc("MC_Memo", wd=workdir("tlc_memo"), workers=2, timeout=600)
     rp = run_tlc("MC_Memo", cfg="MC_MemoRepaired.cfg", wd=workdir("tlc_memo_rep"), workers=2, timeout=600)
     require_ok(rp, "MemoShipped with InvalidateOnDeclare")
@@ -325,10 +342,17 @@ class ShapesDriver:
         mm = []
         bd = self.sys["bdim"]
         u, v = self._u(ev["u"]), self._u(ev["v"])
-        mag = 3
+        mk = ev.get("mk", "int")
+        if mk == "int":
+            mag = 3
+        elif mk == "float":
+            mag = 3.0
+        else:
+            from decimal import Decimal
+            mag = Decimal("3")
         ratio = pv_value(ev["pv"])
         shape = "%s->%s" % (shape_class(ev["u"], bd), shape_class(ev["v"], bd))
-        case = "%s->%s" % (_b(ev["u"]), _b(ev["v"]))
+        case = "%s->%s%s" % (_b(ev["u"]), _b(ev["v"]), "" if mk == "int" else ":" + mk)
         out, val, unit_ok = self._convert(mag * u, v)
         stats["out:" + out.split("@")[0]] = stats.get("out:" + out.split("@")[0], 0) + 1
         prev = ctx["answers"].get(case)
@@ -340,7 +364,7 @@ class ShapesDriver:
         else:
             stats["repeats"] = stats.get("repeats", 0) + 1
         if self.obs:
-            mm.append({"prop": "OBS", "key": case, "detail": [out, repr(val)]})
+            mm.append({"prop": "OBS", "key": case, "detail": [out, repr(val) if out != "ok" or mk == "int" else "%s:%r" % (type(val).__name__, val)]})
         if out not in ("ok", "CNF"):
             mm.append(self._mm("C07", "convert:escaped:%s" % out.split(":", 1)[1], "%s raised %s" % (case, out)))
         elif ev["out"] == "CNF" and out == "ok":
@@ -424,7 +448,7 @@ class ShapesDriver:
         return {"prop": prop, "key": key, "detail": detail}
 
 
-def tlc_shapes(label, cfg="MC_ConvShapes.cfg", maxe1=2, maxe2=1, maxe3=0, prefixed=0, mask=0, timeout=3000, nenum=19):
+def tlc_shapes(label, cfg="MC_ConvShapes.cfg", maxe1=2, maxe2=1, maxe3=0, prefixed=0, mask=0, timeout=3000, nenum=20):
     return run_tlc("MC_ConvShapes", cfg=cfg, wd=workdir("tlc_shapes_" + label),
                    env={"VERIF_MAXE1": maxe1, "VERIF_MAXE2": maxe2, "VERIF_MAXE3": maxe3,
                         "VERIF_PREFIXED": prefixed, "VERIF_SUBSET": mask, "VERIF_NENUM": nenum}, workers=8, timeout=timeout)
@@ -442,7 +466,7 @@ def run_shapes(prop, tier, seed):
     bounds = shapes_bounds(tier)
     if prop == "C07":
         # thorough: all 64 partially connected configurations x both interpreter modes over a 13-unit sub-universe
-        bounds = dict(maxe1=2, maxe2=2, prefixed=0, nenum=10) if tier == "quick" else dict(maxe1=2, maxe2=2, prefixed=0, nenum=13)
+        bounds = dict(maxe1=2, maxe2=2, prefixed=0, nenum=11) if tier == "quick" else dict(maxe1=2, maxe2=2, prefixed=0, nenum=14)
     res = tlc_shapes("pairs", **bounds)
     require_ok(res, "MC_ConvShapes")
     v.add_tlc(res, "MC_ConvShapes %s" % bounds)
